@@ -54,7 +54,7 @@ let () =
       with e -> Printf.printf "%s MODELERROR %s\n" id (Printexc.to_string e))
     | [id; "S"; nu; cts; mans; opss; _] ->
       (* store-level model (Model/GraphStore.v, repaired gcIndex):
-         P<n> Push, T<n> Tag, U<n> n loses its last tag name, X<n> delete, G<k.k.k> GC keeping the untagged manifests k,
+         P<n> Push, N<n>=<r> Tag n under name r, M<r> Untag name r (T<n>/U<n>: node-level tag / loses its last name), X<n> delete, G<k.k.k> GC keeping the untagged manifests k,
          O reopen, Y0/Y1 AutoSaveIndex off/on, W SaveIndex, F<r.r> foreign index + reopen, S observe (stored set, what index.json lists / lists under a name, Predecessors of every key), s the same without index.json *)
       (try
         let nu = int_of_string nu in
@@ -65,14 +65,20 @@ let () =
         let fuel = nat_of_int 100000 in
         let ops = if opss = "-" then [] else String.split_on_char ',' opss in
         let st = ref empty_astore in
+        let names = ref [] in
         let toks = ref [] in
         let fuel_out = ref false in
         List.iter (fun t ->
           let rest = String.sub t 1 (String.length t - 1) in
           let arg () = n_of_int (int_of_string rest) in
-          let applya o =
+          let applya1 o =
             let (s', ok) = astep content isman fuel !st o in
             st := s'; if not ok then fuel_out := true in
+          (* name layer: reference -> node map kept by the model ([ntrans1]) *)
+          let applyn o =
+            let (names', l) = ntrans1 !names o in
+            names := names'; List.iter applya1 l in
+          let applya o = applyn (NOp o) in
           let apply o = applya (AOp o) in
           match t.[0] with
           | 'P' -> apply (PPush (arg ()))
@@ -85,6 +91,11 @@ let () =
           | 'F' ->
             let roots = if rest = "" then [] else List.map (fun x -> n_of_int (int_of_string x)) (String.split_on_char '.' rest) in
             apply (PForeign roots)
+          | 'N' ->
+            (match String.split_on_char '=' rest with
+             | [a; r] -> applyn (NTag (n_of_int (int_of_string a), n_of_int (int_of_string r)))
+             | _ -> failwith "N")
+          | 'M' -> applyn (NUntag (n_of_int (int_of_string rest)))
           | 'O' -> apply PReopen
           | 'Y' -> applya (ASetAuto (rest = "1"))
           | 'W' -> applya ASaveIndex
